@@ -13,6 +13,28 @@ pub fn pick(raw: u16, n: usize) -> usize {
     ((raw as usize) * n) >> 16
 }
 
+/// Large uniformly random byte vectors: a generated 64-bit seed expanded with splitmix64 (a pure
+/// function of the generated value, so replay and shrinking of the seed still work; generating
+/// thousands of independent proptest values per case would dominate the run time).
+pub fn expand(seed: u64, n: usize) -> Vec<u8> {
+    let mut out = Vec::with_capacity(n + 8);
+    let mut x = seed;
+    while out.len() < n {
+        x = crate::core::splitmix(x);
+        out.extend_from_slice(&x.to_le_bytes());
+    }
+    out.truncate(n);
+    out
+}
+
+pub fn g_blob(n: usize) -> impl Strategy<Value = Vec<u8>> {
+    any::<u64>().prop_map(move |s| expand(s, n))
+}
+
+pub fn g_blob16(n: usize) -> impl Strategy<Value = Vec<u16>> {
+    any::<u64>().prop_map(move |s| expand(s ^ 0x5555, 2 * n).chunks(2).map(|c| u16::from_le_bytes([c[0], c[1]])).collect())
+}
+
 // ---------------------------------------------------------------------------------------------
 // G-bytes
 // ---------------------------------------------------------------------------------------------
